@@ -34,6 +34,8 @@ func main() {
 		runK13big(r, n)
 	case "kxattr":
 		runKxattr(r, n)
+	case "kmutual":
+		runKmutual(r, n)
 	case "kmsz":
 		runKmsz(r, n)
 	case "k5":
